@@ -1,4 +1,318 @@
-(* placeholder, replaced below *)
-From PV Require Import Base.MachineInt Model.C02Ops.
-Theorem C02_placeholder : True. Proof. exact I. Qed.
-Print Assumptions C02_placeholder.
+(* C02 — noise-free GLWE/GGSW operations commute with the decryption phase.  Pinned statements only.
+
+   Reading guide.  `glwe`: columns x limbs x n words (C02Ops.v).  `phase n s ct` = limb-wise  ct[0] + sum_i s_i * ct[i+1]
+   in Z[X]/(X^n+1), exact in unbounded Z, for ANY integer secret polynomials s.  `pt_map2 F n size pa pb`: the same
+   operation on plaintexts, limb j of the result = F (limb j of pa) (limb j of pb) with missing limbs read as 0 (the size
+   rule: a shorter result truncates, a longer one is zero-filled).  Missing columns (lower rank, rank-0 plaintext operands)
+   are read as 0 as well.  The theorems are over the EXACT ring: the word-level code wraps at 64 bits, and each theorem
+   carries the no-wrap hypothesis explicitly, as "the word-level limb function equals the exact one on every limb pair the
+   call combines" (`vadd W64 x y = padd x y`, `znx_rotate W64 k x = xmono k x`, ...); `C02_step_exact_small` discharges all
+   of them when every stored word is below 2^62 in magnitude.  None = the call panics. *)
+From PV Require Import Base.MachineInt Model.Znx Model.Limbs Model.Flat Model.Ring Model.DftAbs Model.C02Ops
+                       Proofs.C02Poly Proofs.C02Exact Proofs.C02Canon Proofs.C02Phase Proofs.C02Value Proofs.C02Main.
+Open Scope Z_scope.
+
+(* ------------------------------------------------------------------ ring facts the phase theorems rest on *)
+Theorem C02_pmul_commutes_with_monomial : forall (s a : list Z) (p : Z),
+  length a = length s -> pmul s (xmono p a) = xmono p (pmul s a).
+Proof. exact pmul_xmono. Qed.
+Print Assumptions C02_pmul_commutes_with_monomial.
+
+Theorem C02_rotate_is_monomial : forall (w p : Z) (a : list Z),
+  (forall i, wneg w (nthZ a i) = - nthZ a i) -> znx_rotate w p a = xmono p a.
+Proof. exact rotate_is_xmono. Qed.
+Print Assumptions C02_rotate_is_monomial.
+
+(* ------------------------------------------------------------------ add / sub / negate / copy *)
+Theorem C02_phase_add : forall (n : nat) (s : list (list Z)), secret_ok n s ->
+  forall res a b r, wf_glwe n res -> wf_glwe n a -> wf_glwe n b ->
+  (forall i j, vadd W64 (gl n a i j) (gl n b i j) = padd (gl n a i j) (gl n b i j)) ->
+  glwe_add_into n res a b = Some r ->
+  phase n s r = pt_map2 Fadd n (g_size res) (phase n s a) (phase n s b).
+Proof. exact phase_add. Qed.
+Print Assumptions C02_phase_add.
+
+Theorem C02_phase_add_assign : forall (n : nat) (s : list (list Z)), secret_ok n s ->
+  forall res a r, wf_glwe n res -> wf_glwe n a ->
+  (forall i j, vadd W64 (gl n res i j) (gl n a i j) = padd (gl n res i j) (gl n a i j)) ->
+  glwe_add_assign n res a = Some r ->
+  phase n s r = pt_map2 Fadd n (g_size res) (phase n s res) (phase n s a).
+Proof. exact phase_add_assign. Qed.
+Print Assumptions C02_phase_add_assign.
+
+Theorem C02_phase_sub : forall (n : nat) (s : list (list Z)), secret_ok n s ->
+  forall res a b r, wf_glwe n res -> wf_glwe n a -> wf_glwe n b ->
+  (forall i j, vsub W64 (gl n a i j) (gl n b i j) = psub (gl n a i j) (gl n b i j)) ->
+  glwe_sub n res a b = Some r ->
+  phase n s r = pt_map2 Fsub n (g_size res) (phase n s a) (phase n s b).
+Proof. exact phase_sub. Qed.
+Print Assumptions C02_phase_sub.
+
+Theorem C02_phase_sub_assign : forall (n : nat) (s : list (list Z)), secret_ok n s ->
+  forall res a r, wf_glwe n res -> wf_glwe n a ->
+  (forall i j, vsub W64 (gl n res i j) (gl n a i j) = psub (gl n res i j) (gl n a i j)) ->
+  glwe_sub_assign n res a = Some r ->
+  phase n s r = pt_map2 Fsub n (g_size res) (phase n s res) (phase n s a).
+Proof. exact phase_sub_assign. Qed.
+Print Assumptions C02_phase_sub_assign.
+
+(* res <- a - res: holds when the ranks agree ... *)
+Theorem C02_phase_sub_negate_assign_partial : forall (n : nat) (s : list (list Z)), secret_ok n s ->
+  forall res a r, wf_glwe n res -> wf_glwe n a -> g_ncols a = g_ncols res ->
+  (forall i j, vsub W64 (gl n a i j) (gl n res i j) = psub (gl n a i j) (gl n res i j)) ->
+  glwe_sub_negate_assign n res a = Some r ->
+  phase n s r = pt_map2 Fsub n (g_size res) (phase n s a) (phase n s res).
+Proof. exact phase_sub_negate_assign. Qed.
+Print Assumptions C02_phase_sub_negate_assign_partial.
+(* ... the full statement (also the accepted case a.rank = 0 < res.rank) is FALSE on the code as it is: *)
+Definition C02_phase_sub_negate_assign_full : Prop := forall (n : nat) (s : list (list Z)), secret_ok n s ->
+  forall res a r, wf_glwe n res -> wf_glwe n a -> gsmall res -> gsmall a ->
+  glwe_sub_negate_assign n res a = Some r ->
+  phase n s r = pt_map2 Fsub n (g_size res) (phase n s a) (phase n s res).
+Theorem C02_sub_negate_assign_rank0_refuted :
+  exists n s res a r, secret_ok n s /\ wf_glwe n res /\ wf_glwe n a /\ gsmall res /\ gsmall a /\
+    g_rank a = 0%nat /\ glwe_sub_negate_assign n res a = Some r /\
+    phase n s r <> pt_map2 Fsub n (g_size res) (phase n s a) (phase n s res).
+Proof. exact sub_negate_assign_rank0_refuted. Qed.
+Print Assumptions C02_sub_negate_assign_rank0_refuted.
+
+Theorem C02_phase_negate : forall (n : nat) (s : list (list Z)), secret_ok n s ->
+  forall res a r, wf_glwe n res -> wf_glwe n a ->
+  (forall i j, vneg W64 (gl n a i j) = pneg (gl n a i j)) ->
+  glwe_negate n res a = Some r ->
+  phase n s r = pt_map2 Fneg n (g_size res) (phase n s a) (phase n s a).
+Proof. exact phase_negate. Qed.
+Print Assumptions C02_phase_negate.
+
+Theorem C02_phase_negate_assign : forall (n : nat) (s : list (list Z)), secret_ok n s ->
+  forall res r, wf_glwe n res ->
+  (forall i j, vneg W64 (gl n res i j) = pneg (gl n res i j)) ->
+  glwe_negate_assign n res = Some r ->
+  phase n s r = pt_map2 Fneg n (g_size res) (phase n s res) (phase n s res).
+Proof. exact phase_negate_assign. Qed.
+Print Assumptions C02_phase_negate_assign.
+
+Theorem C02_phase_copy : forall (n : nat) (s : list (list Z)), secret_ok n s ->
+  forall res a r, wf_glwe n res -> wf_glwe n a ->
+  glwe_copy n res a = Some r ->
+  phase n s r = pt_map2 Fid n (g_size res) (phase n s a) (phase n s a).
+Proof. exact phase_copy. Qed.
+Print Assumptions C02_phase_copy.
+
+(* ------------------------------------------------------------------ rotate / mul_xp_minus_one: every k in Z *)
+Theorem C02_phase_rotate : forall (n : nat) (s : list (list Z)), secret_ok n s ->
+  forall (k : Z) res a r, wf_glwe n res -> wf_glwe n a ->
+  (forall i j, znx_rotate W64 k (gl n a i j) = xmono k (gl n a i j)) ->
+  glwe_rotate n k res a = Some r ->
+  phase n s r = pt_map2 (Frot k) n (g_size res) (phase n s a) (phase n s a).
+Proof. exact phase_rotate. Qed.
+Print Assumptions C02_phase_rotate.
+
+(* phase s (rot k ct) = X^k . phase s ct, limb by limb, when res and a have the same number of limbs *)
+Theorem C02_phase_rotate_same_size : forall (n : nat) (s : list (list Z)), secret_ok n s ->
+  forall (k : Z) res a r, wf_glwe n res -> wf_glwe n a -> g_size a = g_size res ->
+  (forall i j, znx_rotate W64 k (gl n a i j) = xmono k (gl n a i j)) ->
+  glwe_rotate n k res a = Some r ->
+  phase n s r = map (xmono k) (phase n s a).
+Proof. exact phase_rotate_same_size. Qed.
+Print Assumptions C02_phase_rotate_same_size.
+
+Theorem C02_phase_rotate_assign : forall (n : nat) (s : list (list Z)), secret_ok n s ->
+  forall (scr k : Z) res r, wf_glwe n res ->
+  (forall i j, znx_rotate W64 k (gl n res i j) = xmono k (gl n res i j)) ->
+  glwe_rotate_assign n scr k res = Some r ->
+  phase n s r = pt_map2 (Frot k) n (g_size res) (phase n s res) (phase n s res).
+Proof. exact phase_rotate_assign. Qed.
+Print Assumptions C02_phase_rotate_assign.
+
+Theorem C02_phase_mul_xp_minus_one : forall (n : nat) (s : list (list Z)), secret_ok n s ->
+  forall (k : Z) res a r, wf_glwe n res -> wf_glwe n a ->
+  (forall i j, vsub W64 (znx_rotate W64 k (gl n a i j)) (gl n a i j) = xmono_m1 k (gl n a i j)) ->
+  glwe_mul_xp_minus_one n k res a = Some r ->
+  phase n s r = pt_map2 (Fmx1 k) n (g_size res) (phase n s a) (phase n s a).
+Proof. exact phase_mul_xp_minus_one. Qed.
+Print Assumptions C02_phase_mul_xp_minus_one.
+
+Theorem C02_phase_mul_xp_minus_one_assign : forall (n : nat) (s : list (list Z)), secret_ok n s ->
+  forall (scr k : Z) res r, wf_glwe n res ->
+  (forall i j, vsub W64 (znx_rotate W64 k (gl n res i j)) (gl n res i j) = xmono_m1 k (gl n res i j)) ->
+  glwe_mul_xp_minus_one_assign n scr k res = Some r ->
+  phase n s r = pt_map2 (Fmx1 k) n (g_size res) (phase n s res) (phase n s res).
+Proof. exact phase_mul_xp_minus_one_assign. Qed.
+Print Assumptions C02_phase_mul_xp_minus_one_assign.
+
+(* ------------------------------------------------------------------ all twelve exact opcodes at once; in-place = out-of-place *)
+Theorem C02_phase_exact_op : forall (n : nat) (s : list (list Z)), secret_ok n s ->
+  forall opc scr k res a b r F ix iy,
+  exact_F opc k = Some (F, ix, iy) ->
+  wf_glwe n res -> wf_glwe n a -> wf_glwe n b ->
+  step_exact n opc k res a b ->
+  exec_op opc n scr k res a b = Some r ->
+  wf_glwe n r /\
+  phase n s r = pt_map2 F n (g_size res) (phase n s (pick3 ix res a b)) (phase n s (pick3 iy res a b)).
+Proof. exact exec_op_phase. Qed.
+Print Assumptions C02_phase_exact_op.
+
+Theorem C02_step_exact_small : forall n opc k res a b F ix iy,
+  exact_F opc k = Some (F, ix, iy) ->
+  wf_glwe n res -> wf_glwe n a -> wf_glwe n b ->
+  gsmall res -> gsmall a -> gsmall b ->
+  (opc = 5 -> g_ncols a = g_ncols res) ->
+  step_exact n opc k res a b.
+Proof. exact step_exact_small. Qed.
+Print Assumptions C02_step_exact_small.
+
+(* add_assign, sub_assign, sub_negate_assign, negate_assign, rotate_assign, mul_xp_minus_one_assign return what the
+   out-of-place form returns when it is applied to the ciphertext itself *)
+Theorem C02_assign_eq : forall n opc scr k res a b r1 r2,
+  wf_glwe n res -> wf_glwe n a -> wf_glwe n b ->
+  step_exact n opc k res a b ->
+  exec_op opc n scr k res a b = Some r1 ->
+  as_out_of_place opc n k res a = Some r2 ->
+  r1 = r2.
+Proof. exact assign_eq. Qed.
+Print Assumptions C02_assign_eq.
+
+(* ------------------------------------------------------------------ straight-line programs *)
+Theorem C02_phase_program : forall (n : nat) (s : list (list Z)), secret_ok n s ->
+  forall scr prog regs regs',
+  Forall (wf_glwe n) regs -> prog_exact n scr prog regs ->
+  run_prog n scr prog regs = Some regs' ->
+  map (phase n s) regs' = pt_prog n prog (map (phase n s) regs).
+Proof. exact prog_phase. Qed.
+Print Assumptions C02_phase_program.
+
+(* ------------------------------------------------------------------ shift / normalise (also cross radix), from the per-column value statement.
+   `column_value_stmt rb ab off keep sgn P u f guard` is the per-coefficient theorem of C08 for the kernel f:
+   val(out) = keep*val(r0) + sgn*2^off*val(a) + e (mod 1), |e| <= u   (u = one unit of the last limb of the result when limbs are
+   truncated, 0 otherwise).  Conclusion: the phase of the values satisfies the same relation, with an error bounded by
+   err_bound u s ncols = u * (1 + sum_{i < rank} ||s_i||_1)  --  one unit per truncated column, reaching the phase through the secret. *)
+(* opcodes 13..17 = glwe_rsh, glwe_lsh_assign, glwe_lsh, glwe_lsh_add, glwe_lsh_sub:
+   val(phase(r)) = keep*val(phase(res)) + sgn * 2^(+-k) * val(phase(a)) + E  (mod 1), all values scaled by 2^P *)
+Theorem C02_phase_shift : forall n s opc scr k res a b r P u guard,
+  13 <= opc <= 17 -> 0 <= u ->
+  column_value_stmt (g_b res) (if sn_inplace opc then g_b res else g_b a) (sn_off opc k) (sn_keep opc) (sn_sgn opc) P u
+                    (sn_kernel opc (g_b res) (g_b a) k) guard ->
+  secret_ok n s -> wf_glwe n res -> wf_glwe n a ->
+  (sn_inplace opc = false -> g_ncols a = g_ncols res) ->
+  (forall i t, (i < g_ncols res)%nat -> (t < n)%nat ->
+     guard (coeff_limbs (gcol (if sn_inplace opc then res else a) i) t) (coeff_limbs (gcol res i) t)) ->
+  exec_op opc n scr k res a b = Some r ->
+  wf_glwe n r /\
+  forall t, exists E M,
+    nthZ (valp P (g_b res) n (phase n s r)) t =
+      sn_keep opc * nthZ (valp P (g_b res) n (phase n s res)) t +
+      sn_sgn opc * nthZ (valp (P + sn_off opc k) (if sn_inplace opc then g_b res else g_b a) n
+                              (phase n s (if sn_inplace opc then res else a))) t +
+      E + M * 2 ^ P /\
+    Z.abs E <= err_bound u s (g_ncols res).
+Proof. intros n s opc scr k res a b r P u guard Ho. apply exec_op_phase_value_limbs. lia. Qed.
+Print Assumptions C02_phase_shift.
+
+(* opcodes 18, 19 = glwe_normalize (same or different radix), glwe_normalize_assign *)
+Theorem C02_phase_normalize : forall n s opc scr k res a b r P u guard,
+  18 <= opc <= 19 -> 0 <= u ->
+  column_value_stmt (g_b res) (if sn_inplace opc then g_b res else g_b a) (sn_off opc k) (sn_keep opc) (sn_sgn opc) P u
+                    (sn_kernel opc (g_b res) (g_b a) k) guard ->
+  secret_ok n s -> wf_glwe n res -> wf_glwe n a ->
+  (sn_inplace opc = false -> g_ncols a = g_ncols res) ->
+  (forall i t, (i < g_ncols res)%nat -> (t < n)%nat ->
+     guard (coeff_limbs (gcol (if sn_inplace opc then res else a) i) t) (coeff_limbs (gcol res i) t)) ->
+  exec_op opc n scr k res a b = Some r ->
+  wf_glwe n r /\
+  forall t, exists E M,
+    nthZ (valp P (g_b res) n (phase n s r)) t =
+      sn_keep opc * nthZ (valp P (g_b res) n (phase n s res)) t +
+      sn_sgn opc * nthZ (valp (P + sn_off opc k) (if sn_inplace opc then g_b res else g_b a) n
+                              (phase n s (if sn_inplace opc then res else a))) t +
+      E + M * 2 ^ P /\
+    Z.abs E <= err_bound u s (g_ncols res).
+Proof. intros n s opc scr k res a b r P u guard Ho. apply exec_op_phase_value_limbs. lia. Qed.
+Print Assumptions C02_phase_normalize.
+
+(* the value of the limb-wise phase is the phase of the values (val is a homomorphism of Z[X]/(X^n+1)-modules) *)
+Theorem C02_value_of_phase : forall (n : nat) (s : list (list Z)) (P b : Z) (g : glwe),
+  secret_ok n s -> wf_glwe n g -> forall t, nthZ (valp P b n (phase n s g)) t = nthZ (VP P b n s g) t.
+Proof. exact value_of_phase. Qed.
+Print Assumptions C02_value_of_phase.
+
+(* |(s * e)_t| <= ||s||_1 * ||e||_inf : how one unit per column reaches the phase *)
+Theorem C02_pmul_bound : forall s e u k, length e = length s -> 0 <= u -> (forall i, Z.abs (nthZ e i) <= u) ->
+  Z.abs (nthZ (pmul s e) k) <= l1norm s * u.
+Proof. exact pmul_bound. Qed.
+Print Assumptions C02_pmul_bound.
+
+(* ------------------------------------------------------------------ GGSW: entry by entry *)
+Theorem C02_phase_ggsw_rotate : forall n s k res a r, secret_ok n s -> ggsw_rotate n k res a = Some r ->
+  forall row col, (row < gs_dnum res)%nat -> (col <= gs_rank res)%nat ->
+  wf_glwe n (gs_at res row col) -> wf_glwe n (gs_at a row col) ->
+  (forall i j, znx_rotate W64 k (gl n (gs_at a row col) i j) = xmono k (gl n (gs_at a row col) i j)) ->
+  phase n s (gs_at r row col) =
+  pt_map2 (Frot k) n (g_size (gs_at res row col)) (phase n s (gs_at a row col)) (phase n s (gs_at a row col)).
+Proof. exact phase_ggsw_rotate. Qed.
+Print Assumptions C02_phase_ggsw_rotate.
+
+Theorem C02_phase_ggsw_rotate_assign : forall n s scr k res r, secret_ok n s -> ggsw_rotate_assign n scr k res = Some r ->
+  forall row col, (row < gs_dnum res)%nat -> (col <= gs_rank res)%nat ->
+  wf_glwe n (gs_at res row col) ->
+  (forall i j, znx_rotate W64 k (gl n (gs_at res row col) i j) = xmono k (gl n (gs_at res row col) i j)) ->
+  phase n s (gs_at r row col) =
+  pt_map2 (Frot k) n (g_size (gs_at res row col)) (phase n s (gs_at res row col)) (phase n s (gs_at res row col)).
+Proof. exact phase_ggsw_rotate_assign. Qed.
+Print Assumptions C02_phase_ggsw_rotate_assign.
+
+(* ------------------------------------------------------------------ examples: the hypotheses are satisfiable, the conclusions are what one computes *)
+Definition ex_s : list (list Z) := [[1; 0; -1; 1]; [0; -1; 1; 0]].
+Definition ex_res : glwe := zero_glwe 8 4 2 2.                      (* rank 2, 2 limbs *)
+Definition ex_a : glwe := {| g_b := 8; g_n := 4; g_size := 3;        (* rank 2, 3 limbs: the result truncates *)
+  g_cols := [[[1;2;3;4];[5;6;7;8];[9;10;11;12]]; [[-1;-2;-3;-4];[13;14;15;16];[0;0;1;0]]; [[100;0;0;-100];[7;7;7;7];[1;1;1;1]]] |}.
+Definition ex_b : glwe := {| g_b := 8; g_n := 4; g_size := 1;        (* rank 0 plaintext, 1 limb: zero-extended *)
+  g_cols := [[[50;-50;25;-25]]] |}.
+
+Lemma ex_wf : secret_ok 4 ex_s /\ wf_glwe 4 ex_res /\ wf_glwe 4 ex_a /\ wf_glwe 4 ex_b /\ gsmall ex_res /\ gsmall ex_a /\ gsmall ex_b.
+Proof. repeat split; repeat constructor; cbn; lia. Qed.
+
+(* ciphertext + rank-0 plaintext, three different limb counts *)
+Example C02_ex_add : exists r, glwe_add_into 4 ex_res ex_a ex_b = Some r /\
+  phase 4 ex_s r = pt_map2 Fadd 4 2 (phase 4 ex_s ex_a) (phase 4 ex_s ex_b) /\
+  phase 4 ex_s r = [[-51; -51; 130; -24]; [19; 7; -7; 23]].
+Proof.
+  destruct ex_wf as (Hs & Wr & Wa & Wb & Sr & Sa & Sb).
+  eexists. split; [vm_compute; reflexivity|]. split; [|vm_compute; reflexivity].
+  refine (proj2 (C02_phase_exact_op 4 ex_s Hs 1 0 0 ex_res ex_a ex_b _ Fadd 1%nat 2%nat eq_refl Wr Wa Wb _ _)).
+  - apply (C02_step_exact_small 4 1 0 ex_res ex_a ex_b Fadd 1%nat 2%nat eq_refl); auto; discriminate.
+  - vm_compute. reflexivity.
+Qed.
+
+(* rotation by a negative amount beyond -2N *)
+Example C02_ex_rotate : exists r, glwe_rotate 4 (-11) ex_res ex_a = Some r /\
+  phase 4 ex_s r = pt_map2 (Frot (-11)) 4 2 (phase 4 ex_s ex_a) (phase 4 ex_s ex_a) /\
+  pt_map2 (Frot (-11)) 4 2 (phase 4 ex_s ex_a) (phase 4 ex_s ex_a) = [xmono (-11) (nth 0 (phase 4 ex_s ex_a) []); xmono (-11) (nth 1 (phase 4 ex_s ex_a) [])].
+Proof.
+  destruct ex_wf as (Hs & Wr & Wa & Wb & Sr & Sa & Sb).
+  eexists. split; [vm_compute; reflexivity|]. split; [|vm_compute; reflexivity].
+  refine (proj2 (C02_phase_exact_op 4 ex_s Hs 9 0 (-11) ex_res ex_a ex_b _ (Frot (-11)) 1%nat 1%nat eq_refl Wr Wa Wb _ _)).
+  - apply (C02_step_exact_small 4 9 (-11) ex_res ex_a ex_b (Frot (-11)) 1%nat 1%nat eq_refl); auto; discriminate.
+  - vm_compute. reflexivity.
+Qed.
+
+(* a three-instruction program: r0 <- a + b ; r0 <- X^5 r0 ; r1 <- r1 - r0 *)
+Definition ex_prog : list instr :=
+  [ {| i_op := 1; i_d := 0; i_x := 1; i_y := 2; i_k := 0 |};
+    {| i_op := 10; i_d := 0; i_x := 0; i_y := 0; i_k := 5 |};
+    {| i_op := 4; i_d := 1; i_x := 0; i_y := 0; i_k := 0 |} ].
+Example C02_ex_program : exists regs', run_prog 4 4096 ex_prog [ex_res; ex_a; ex_b] = Some regs' /\
+  map (phase 4 ex_s) regs' = pt_prog 4 ex_prog (map (phase 4 ex_s) [ex_res; ex_a; ex_b]).
+Proof. eexists. split; vm_compute; reflexivity. Qed.
+
+(* right shift by 5 bits of a 2-limb ciphertext in radix 2^8: value of the phase = 2^-5 * value of the phase, within
+   (1 + ||s_1||_1 + ||s_2||_1) units of the last limb *)
+Example C02_ex_rsh_numeric :
+  let a := with_cols ex_a (map (firstn 2) (g_cols ex_a)) in
+  let a := {| g_b := 8; g_n := 4; g_size := 2; g_cols := g_cols a |} in
+  match glwe_rsh 4 4096 5 a with
+  | Some r =>
+      forallb (fun t => tor_dist 40 (nthZ (VP 40 8 4 ex_s r) t - nthZ (VP 35 8 4 ex_s a) t) <=? err_bound (2 ^ (40 - 16)) ex_s 3) (seq 0 4)
+  | None => false
+  end = true.
+Proof. vm_compute. reflexivity. Qed.
